@@ -1,4 +1,156 @@
-import ShootVerif.Spec.Mapper
+import ShootVerif.Proofs.MapperCtor
+/-!
+C15 — mapping through accessors/constructors equals plain field mapping.
+
+Model: `newView` (what `shoot new -getset` gives the mapper: constructor parameters recovered from
+the keyed literal of the C02 model, getters, setters as pseudo-fields), `ctorMatch` (makeCtorMatch
+with zero-value synthesis), then the ordinary pair loop started from the write-set the constructor
+left. Spec: `candsTo`/`candsFrom` on the exported twin (`twinName`, `readable`, `writable`).
+-/
 namespace ShootVerif.Mapper
-theorem C15_placeholder : True := trivial
+open ShootVerif.Transfer
+
+/-- headline: the constructor call has one argument per parameter, in parameter order, and each
+    argument is either the zero literal of its type (`rd = none`) or the value of a readable
+    (non-setter) field of the other side whose name matches the parameter's field, assigned when the
+    types are identical, converted when convertible (not string<->fixed int), or passed through a
+    mapper method of exactly those types. Both directions; all inputs. -/
+theorem C15_ctor_args (inp : Input) :
+    (∀ args, (plan inp).destCtor = some args →
+      args.map (·.p) = sideParams inp.dest inp.destNew ∧
+      ∀ a ∈ args, a.rd = none ∨ ∃ f, a.rd = some f ∧ f ∈ (plan inp).srcFields ∧ f.isSet = false ∧
+        inp.nm f a.p = true ∧ justifiedArg inp.conv (indexed inp.fns) f a) ∧
+    (∀ args, (plan inp).srcCtor = some args →
+      args.map (·.p) = sideParams inp.src inp.srcNew ∧
+      ∀ a ∈ args, a.rd = none ∨ ∃ f, a.rd = some f ∧ f ∈ (plan inp).destFields ∧ f.isSet = false ∧
+        canNameMatch [] inp.ic f a.p = true ∧ justifiedArg inp.conv (indexed inp.fns) f a) := by
+  constructor
+  · intro args h
+    have := ctorMatch_args inp.conv inp.fns inp.nm (sideFields inp.src inp.srcNew) (sideParams inp.dest inp.destNew) []
+      (ctorMatch inp.conv inp.fns inp.nm (sideFields inp.src inp.srcNew) (sideParams inp.dest inp.destNew) []).1 args
+      (by rw [← h]; rfl)
+    refine ⟨this.1, fun a ha => ?_⟩
+    rcases this.2 a ha with h0 | ⟨f, h1, h2, _, h4, h5, h6, _⟩
+    · exact Or.inl h0
+    · exact Or.inr ⟨f, h1, h2, h4, h5, h6⟩
+  · intro args h
+    have := ctorMatch_args inp.conv inp.fns (canNameMatch [] inp.ic) (sideFields inp.dest inp.destNew)
+      (sideParams inp.src inp.srcNew) []
+      (ctorMatch inp.conv inp.fns (canNameMatch [] inp.ic) (sideFields inp.dest inp.destNew) (sideParams inp.src inp.srcNew) []).1 args
+      (by rw [← h]; rfl)
+    refine ⟨this.1, fun a ha => ?_⟩
+    rcases this.2 a ha with h0 | ⟨f, h1, h2, _, h4, h5, h6, _⟩
+    · exact Or.inl h0
+    · exact Or.inr ⟨f, h1, h2, h4, h5, h6⟩
+
+/-- headline: no field is written twice — a setter (or exported field) is the target of at most one
+    statement, and of none when the constructor call already carries its value. Hypotheses: the two
+    field lists have no duplicates (`wfNewSide`: distinct accessor names).
+    NOT proved here: "at least once" (every name-matched compatible settable field is indeed set);
+    `C05_pairs` gives it under unique name matching, which accessor mode does not have (the getter and
+    the setter pseudo-field of one field both match the partner). It is asserted on the implementation
+    by the `writes:` observables of the correspondence run. -/
+theorem C15_set_once (inp : Input) (h1 : (plan inp).srcFields.Nodup) (h2 : (plan inp).destFields.Nodup) :
+    ((plan inp).toStmts.map (·.wr.name)).Nodup ∧ ((plan inp).fromStmts.map (·.wr.name)).Nodup ∧
+    (∀ args, (plan inp).destCtor = some args → ∀ a ∈ args, a.rd ≠ none →
+      ∀ c ∈ (plan inp).toStmts, c.wr.name ≠ a.p.name) ∧
+    (∀ args, (plan inp).srcCtor = some args → ∀ a ∈ args, a.rd ≠ none →
+      ∀ c ∈ (plan inp).fromStmts, c.wr.name ≠ a.p.name) := by
+  have hinv := planFields_inv (conv := inp.conv) (ps := pairs inp.nm (plan inp).srcFields (plan inp).destFields) inp.fns
+    (ctorMatch inp.conv inp.fns inp.nm (sideFields inp.src inp.srcNew) (sideParams inp.dest inp.destNew) []).1
+    (ctorMatch inp.conv inp.fns (canNameMatch [] inp.ic) (sideFields inp.dest inp.destNew) (sideParams inp.src inp.srcNew) []).1
+  have hst : (plan inp).st = planFields inp.conv inp.fns (pairs inp.nm (plan inp).srcFields (plan inp).destFields)
+      { wD := (ctorMatch inp.conv inp.fns inp.nm (sideFields inp.src inp.srcNew) (sideParams inp.dest inp.destNew) []).1,
+        wS := (ctorMatch inp.conv inp.fns (canNameMatch [] inp.ic) (sideFields inp.dest inp.destNew) (sideParams inp.src inp.srcNew) []).1 } := rfl
+  rw [← hst] at hinv
+  refine ⟨stmts_nodup _ _ h1 hinv.toNodup, stmts_nodup _ _ h2 hinv.fromNodup, ?_, ?_⟩
+  · intro args h a ha hrd c hc e
+    have := ctorMatch_args inp.conv inp.fns inp.nm (sideFields inp.src inp.srcNew) (sideParams inp.dest inp.destNew) []
+      _ args (by rw [← h]; rfl)
+    rcases this.2 a ha with h0 | ⟨f, _, _, _, _, _, _, h7⟩
+    · exact hrd h0
+    · exact (hinv.toIn c (stmts_sub hc).1).2.1 (e ▸ h7)
+  · intro args h a ha hrd c hc e
+    have := ctorMatch_args inp.conv inp.fns (canNameMatch [] inp.ic) (sideFields inp.dest inp.destNew)
+      (sideParams inp.src inp.srcNew) [] _ args (by rw [← h]; rfl)
+    rcases this.2 a ha with h0 | ⟨f, _, _, _, _, _, _, h7⟩
+    · exact hrd h0
+    · exact (hinv.fromIn c (stmts_sub hc).1).2.1 (e ▸ h7)
+
+/-- the constructor is used only when at least one argument carries a value -/
+theorem C15_ctor_used (conv : List (Ty × Ty)) (fl : List Fn) (nm : Field → Field → Bool) (fields params : List Field)
+    (ws ws' : List String) (args : List CtorArg) (h : ctorMatch conv fl nm fields params ws = (ws', some args)) :
+    (ctorFold conv fl nm fields params ws).2 ≠ [] := by
+  unfold ctorMatch at h
+  split at h
+  · cases h
+  · split at h
+    · cases h
+    · rename_i hne
+      intro e
+      simp [e] at hne
+
+/-- refinement to C05, name-matching part: a getter pseudo-field matches exactly what the exported
+    twin of its field matches, and a setter pseudo-field is matched exactly like the twin. (The full
+    refinement `obs (plan accessorInput) = obs (plan exportedTwin)` is not proved; it is what the
+    correspondence run asserts leaf by leaf through `spec15`.) -/
+theorem C15_refines_partial (tm : List (String × String)) (ic : Bool) (n : String) (ty : Ty) (o : Field)
+    (hn : pascalS n ≠ "") (ho : o.isGet = false) (hos : o.isSet = false) :
+    canNameMatch tm ic { name := pascalS n, path := [pascalS n], ty := ty, backing := pascalS n, isGet := true } o =
+      canNameMatch tm ic { name := pascalS n, path := [pascalS n], ty := ty } o ∧
+    canNameMatch tm ic o { name := "Set" ++ pascalS n, path := ["Set" ++ pascalS n], ty := ty, backing := pascalS n, isSet := true } =
+      canNameMatch tm ic o { name := pascalS n, path := [pascalS n], ty := ty } := by
+  simp [canNameMatch, Field.matchingName, hn, ho, hos]
+
+/-! ### non-vacuity -/
+
+/-- src {ID int; Name string; Wide int}  dest new {id int; name string (get); wide int64 (new-less)} -/
+def exWF15 : Input :=
+  { src := .field { name := "ID", ty := .basic "int" } (.field { name := "Name", ty := .basic "string" }
+            (.field { name := "Wide", ty := .basic "int" } .nil)),
+    dest := .field { name := "id", ty := .basic "int" } (.field { name := "name", ty := .basic "string", get := true }
+            (.field { name := "wide", ty := .basic "int64" } .nil)),
+    destNew := true,
+    conv := [(.basic "int", .basic "int64"), (.basic "int64", .basic "int")] }
+
+example : region15 exWF15 = "WF" ∧ obs15 exWF15 = spec15 exWF15 := by decide
+example : ((plan exWF15).destCtor.getD []).map (fun a => (a.p.name, a.rd.map (·.name), a.strat)) =
+    [("SetId", some "ID", .assign), ("SetName", some "Name", .assign), ("SetWide", some "Wide", .conv)] := by decide
+example : (plan exWF15).srcFields.Nodup ∧ (plan exWF15).destFields.Nodup := by decide
+
+/-! ### finding regions -/
+
+/-- a set-only field on the reading side: `s.Wo = d_.SetWo` -/
+def wSetOnly : Input :=
+  { src := .field { name := "Wo", ty := .basic "int" } .nil,
+    dest := .field { name := "wo", ty := .basic "int", set := true } .nil, destNew := true }
+theorem C15_F_setOnlyRead_witness : region15 wSetOnly = "F_setOnlyRead" ∧ obs15 wSetOnly ≠ spec15 wSetOnly := by decide
+
+/-- constructor argument converted although a mapper method int→int64 exists -/
+def wCtorPriority : Input :=
+  { src := .field { name := "Wide", ty := .basic "int" } .nil,
+    dest := .field { name := "wide", ty := .basic "int64" } .nil, destNew := true, way := .toOnly,
+    fns := [{ name := "Fn0", param := .basic "int", result := .basic "int64" }], mapperPtr := some false,
+    conv := [(.basic "int", .basic "int64"), (.basic "int64", .basic "int")] }
+theorem C15_F_ctorPriority_witness : region15 wCtorPriority = "F_ctorPriority" ∧ obs15 wCtorPriority ≠ spec15 wCtorPriority := by decide
+
+/-- `map:"-"` on a field of an accessor-mode type -/
+def wSkipTagNew : Input :=
+  { src := .field { name := "Age", ty := .basic "int" } .nil,
+    dest := .field { name := "age", ty := .basic "int", tag := .skip } .nil, destNew := true, way := .toOnly }
+theorem C15_F_skipTagNew_witness : region15 wSkipTagNew = "F_skipTagNew" ∧ obs15 wSkipTagNew ≠ spec15 wSkipTagNew := by decide
+
+/-- get-only field that needs a recursive mapping -/
+def wCtorNoSub : Input :=
+  { src := .field { name := "Addr", ty := .named .src "Sub" (.struct "N:int") } .nil,
+    dest := .field { name := "addr", ty := .named .dest "Sub" (.struct "N:int,Other:string"), get := true } .nil,
+    destNew := true, way := .toOnly }
+theorem C15_F_ctorNoSub_witness : region15 wCtorNoSub = "F_ctorNoSub" ∧ obs15 wCtorNoSub ≠ spec15 wCtorNoSub := by decide
+
+/-- tagged get-only field of the source type: the source constructor is matched without the tag map -/
+def wCtorTag : Input :=
+  { src := .field { name := "caption", ty := .basic "string", tag := .name "Title", get := true } .nil,
+    dest := .field { name := "Title", ty := .basic "string" } .nil, srcNew := true, way := .fromOnly }
+theorem C15_F_ctorTag_witness : region15 wCtorTag = "F_ctorTag" ∧ obs15 wCtorTag ≠ spec15 wCtorTag := by decide
+
 end ShootVerif.Mapper
